@@ -582,6 +582,16 @@ class DocGen:
                     selset.append(self.clone_field(f0, roots[kind], 1, scope, no_directives=True))
                 elif r < o.p_sub_repeat + 0.15:
                     selset = [InlineFrag(rng.choice([None, roots[kind]]), [], selset)]
+                elif r < o.p_sub_repeat + 0.3:
+                    # the single root field comes through a named fragment
+                    used = set(self.doc.frags) | self.building
+                    cands = [x for x in FRAG_NAMES if x not in used and x != "on"]
+                    fname = rng.choice(cands) if cands else "SubFr%d" % len(used)
+                    self.doc.frags[fname] = FragDef(fname, roots[kind], selset)
+                    self.frag_vars[fname] = set(scope["vars"])
+                    self.frag_spreads[fname] = set(scope["spreads"])
+                    scope["spreads"].add(fname)
+                    selset = [Spread(fname)]
             else:
                 selset = self.gen_selset(roots[kind], 1, scope)
             if kind == "query" and rng.random() < o.introspection:
